@@ -9,11 +9,55 @@ WIT = os.path.join(VERIF, "witness")
 _RES = {}
 
 
-def results():
-    th = extract.tree_hash()
-    with open(os.path.join(WIT, "src", "lib.rs"), "rb") as fh:
-        import hashlib
-        th += "-" + hashlib.sha256(fh.read()).hexdigest()[:8]
+def _resolve(P, ph):
+    """names a placeholder stands for, read from the current tree's facts (so that renaming a private field or item does not break a witness):
+    `field <adt> <type|*>` -> fields of that struct with that type; `item <crate> <static|const> <type prefix>` -> items of that crate."""
+    parts = ph.split()
+    if parts[0] == "field":
+        a = P.adt(parts[1])
+        fs = [f["name"] for f in a["variants"][0]["fields"] if parts[2] == "*" or f["ty"] == parts[2]]
+        if not fs:
+            raise AnchorError(f"witness placeholder {{{{{ph}}}}}: {parts[1]} has no field of type {parts[2]}")
+        return fs
+    if parts[0] == "item":
+        names = [k.rsplit("::", 1)[1] for k, v in P.values.items() if v.get("crate") == parts[1] and v.get("kind") == parts[2] and k.count("::") == 1 and v.get("ty", "").startswith(parts[3])]
+        if not names:
+            raise AnchorError(f"witness placeholder {{{{{ph}}}}}: crate {parts[1]} has no {parts[2]} of type {parts[3]}..")
+        return sorted(names)
+    raise AnchorError(f"witness placeholder {{{{{ph}}}}} not understood")
+
+
+def expand(P, text):
+    """lib.rs with every documented item that uses placeholders instantiated once per matching name (all instances must behave)."""
+    out, doc = [], []
+    for line in text.splitlines():
+        if line.startswith("///"):
+            doc.append(line)
+            continue
+        if doc:
+            body = "\n".join(doc)
+            phs = sorted(set(re.findall(r"\{\{([^{}]+)\}\}", body)))
+            if phs:
+                choices = {ph: _resolve(P, ph) for ph in phs}
+                n = max(len(v) for v in choices.values())
+                inst = []
+                for i in range(n):
+                    b = body
+                    for ph, names in choices.items():
+                        b = b.replace("{{" + ph + "}}", names[i % len(names)])
+                    inst.append(b)
+                body = "\n".join(inst)
+            out.append(body)
+            doc = []
+        out.append(line)
+    return "\n".join(out) + "\n"
+
+
+def results(P):
+    import hashlib
+    with open(os.path.join(WIT, "src", "lib.rs")) as fh:
+        lib = expand(P, fh.read())
+    th = extract.tree_hash() + "-" + hashlib.sha256(lib.encode()).hexdigest()[:8]
     if th in _RES:
         return _RES[th]
     cdir = os.path.join(extract.CACHE, "witness")
@@ -25,13 +69,26 @@ def results():
         if os.path.exists(cf):
             _RES[th] = json.load(open(cf))
             return _RES[th]
-        shutil.copy(os.path.join(extract.REPO, "Cargo.lock"), os.path.join(WIT, "Cargo.lock"))
+        # the crate is generated (placeholders resolved, dependencies pointing at the tree under analysis) outside the sources of /verif
+        gen = os.path.join(extract.CACHE, "witness-gen")
+        shutil.rmtree(gen, ignore_errors=True)
+        os.makedirs(os.path.join(gen, "src"))
+        os.makedirs(os.path.join(gen, ".cargo"))
+        with open(os.path.join(WIT, "Cargo.toml")) as fh:
+            toml = fh.read().replace('"/repo/', '"' + extract.REPO.rstrip("/") + "/")
+        open(os.path.join(gen, "Cargo.toml"), "w").write(toml)
+        open(os.path.join(gen, "src", "lib.rs"), "w").write(lib)
+        shutil.copy(os.path.join(WIT, "rust-toolchain.toml"), os.path.join(gen, "rust-toolchain.toml"))
+        shutil.copy(os.path.join(WIT, ".cargo", "config.toml"), os.path.join(gen, ".cargo", "config.toml"))
+        shutil.copy(os.path.join(extract.REPO, "Cargo.lock"), os.path.join(gen, "Cargo.lock"))
         env = dict(os.environ, CARGO_NET_OFFLINE="true", CARGO_TARGET_DIR=os.path.join(extract.CACHE, "target-witness"))
         env.pop("RUSTC_WORKSPACE_WRAPPER", None)
-        r = subprocess.run(["cargo", "+nightly", "test", "--doc", "--offline"], cwd=WIT, env=env, stdout=subprocess.PIPE, stderr=subprocess.STDOUT, text=True)
+        r = subprocess.run(["cargo", "+nightly", "test", "--doc", "--offline"], cwd=gen, env=env, stdout=subprocess.PIPE, stderr=subprocess.STDOUT, text=True)
         res = {}
         for m in re.finditer(r"^test src/lib\.rs - (\w+) \(line (\d+)\) - (compile fail|compile) \.\.\. (ok|FAILED)", r.stdout, re.M):
-            res.setdefault(m.group(1), {})["witness" if m.group(3) == "compile fail" else "twin"] = m.group(4)
+            slot = res.setdefault(m.group(1), {})
+            k = "witness" if m.group(3) == "compile fail" else "twin"
+            slot[k] = "FAILED" if (slot.get(k) == "FAILED" or m.group(4) == "FAILED") else "ok"      # every instance must behave
         if not res:
             raise AnchorError("witness crate did not build: " + r.stdout[-800:])
         out = {"results": res, "tail": r.stdout[-3000:] if "FAILED" in r.stdout else ""}
@@ -46,7 +103,7 @@ def results():
 
 def check(ctx, names):
     """names: {witness module name: what a failure means}"""
-    out = results()
+    out = results(ctx.P)
     res = out["results"]
     for n, meaning in names.items():
         r = res.get(n)
